@@ -707,6 +707,7 @@ int main(int argc, char** argv)
     return true;
   };
   if (!histories(0)) return ctx.finish();
+  for (auto& x : ctx.extra_args) if (x == "--histories-only") { ctx.exhaustive = false; return ctx.finish(); } // (for timing the stage above on its own)
   for (int n = 1; n <= 6; ++n)
     for (int k0 = 1; k0 <= 2 * n + 1; ++k0)
       for (int rnd = 0; rnd < 2; ++rnd)
